@@ -127,13 +127,20 @@ func (a *allocation) refreshPermissions() error {
 
 		return nil
 	}
-	if err := a.CreatePermissions(addrs...); err != nil {
-		if errors.Is(err, errTryAgain) {
-			return errTryAgain
-		}
-		a.log.Errorf("Fail to refresh permissions: %s", err)
+	// One request per maxPermissionsPerRequest addresses: a request that names every peer of a
+	// busy allocation outgrows what a server reads as one datagram (1600 bytes by default
+	// here) and, beyond some 5000 peers, the STUN length field.
+	for len(addrs) > 0 {
+		n := min(len(addrs), maxPermissionsPerRequest)
+		if err := a.CreatePermissions(addrs[:n]...); err != nil {
+			if errors.Is(err, errTryAgain) {
+				return errTryAgain
+			}
+			a.log.Errorf("Fail to refresh permissions: %s", err)
 
-		return err
+			return err
+		}
+		addrs = addrs[n:]
 	}
 	a.log.Debug("Refresh permissions successful")
 
